@@ -45,6 +45,9 @@ ArgVal(arg, row) ==
                                     THEN (IF Has(row, Head(arg.p)) /\ HasPath(row[Head(arg.p)], Tail(arg.p)) THEN ColPath(row, arg.p) ELSE Missing)
                                     ELSE (IF Has(row, arg.c) THEN row[arg.c] ELSE Missing) IN
                          IF IsNum(x) THEN NumV((x.v * arg.an) \div arg.ad + arg.b * Scale) ELSE Missing
+    \* shift-invariant aggregates (var, stddev) over LARGE values: the engine aggregates column v = offset + vs, the
+    \* reference aggregates the small shadow column vs of the same row (var(v) = var(vs))
+    [] arg.k = "shadow" -> IF Has(row, arg.c) THEN row[arg.c] ELSE Missing
     [] arg.k = "star" -> Null
 
 \* parameter handed to Agg!Ok: for first/last value 1 = "an absent input may also count as NULL" (expression / path arguments)
